@@ -114,6 +114,10 @@ theorem C04_oj_stream (o : Opts) (ord : Kvs → Kvs) (hord : IsOrder ord) (limit
 /-- the indentation constant of `pretty` is white space only -/
 theorem pretty_spaces_ws : (Gen.Pretty.spaces.toList.all Spec.isWs) = true := by decide +kernel
 
+/-- … and so are the separators `fill` uses for flat containers, read from the source (the second
+is the fallback past the indentation limit) -/
+theorem pretty_seps_ws : SepWs := ⟨pretty_spaces_ws, by decide +kernel, by decide +kernel⟩
+
 
 /-- C04 for `pretty.JSON` as the property states it: for every configuration the text is one JSON
 document denoting the tree minus exactly the members OmitNil / OmitEmpty name -/
@@ -159,7 +163,7 @@ theorem C04_pretty_align_partial (p : POpts) (ord : Kvs → Kvs) (hord : IsOrder
     Spec.parseDoc (prettyWrite p ord v) = .one (norm (ojOptsOf p) ord v) := by
   rw [prettyWrite_eq_ptext p ord hord v hnt]
   obtain ⟨b, t, hb, hsb⟩ := ptext_head (pwOf p ord v) ord (depth v) v 0 false hv
-  have hp := parse_ptext jMap_safe pretty_spaces_ws (pwOf p ord v) ord hord (depth v + 1) v 0 false
+  have hp := parse_ptext jMap_safe pretty_seps_ws (pwOf p ord v) ord hord (depth v + 1) v 0 false
     ((ptext (pwOf p ord v) ord (depth v + 1) v 0 false).length + 1) [] hv (Nat.lt_succ_self _)
     (Nat.lt_succ_self _) rfl
   simp only [List.append_nil, pwOf_o] at hp
